@@ -175,6 +175,11 @@ def gen_pom(rng, ndeps=None, deps_shape=None):
             plug.append(E("dependencies", [gen_dependency(rng)[0]]))
         if rng.random() < 0.5:
             plug.append(E("configuration", [value_elem(rng, "source", "1.8"), value_elem(rng, "scope", "odd")]))
+        if rng.random() < 0.35:
+            # elements whose names HTML knows as void elements (javadoc links, applet-style parameters): in a pom they
+            # are ordinary elements with content
+            plug.append(E("configuration", [E("links", [value_elem(rng, "link", "https://docs.example.org/api/")]),
+                                            value_elem(rng, rng.choice(["param", "input", "meta", "base", "br", "col"]), "v1")]))
         sections.append(E("build", [E("plugins", [E("plugin", plug)])]))
     if rng.random() < 0.25:
         sections.append(E("profiles", [E("profile", [value_elem(rng, "id", "dev"),
